@@ -17,6 +17,14 @@ import (
 // raw observations, also outside the contract.
 var rawKinds = map[string]bool{"plain": true, "batched": true}
 
+func curEnts(n *rnode) map[ent]bool {
+	m := map[ent]bool{}
+	for _, e := range n.ents {
+		m[e] = true
+	}
+	return m
+}
+
 func isQuery(o op) bool { return o.Kind == "Q" || o.Kind == "RRS" || o.Kind == "GS" }
 
 func runCase(c tcase, obs *vh.LineWriter, st *vh.Stats, nonCmd uint64) {
@@ -36,11 +44,15 @@ func runCase(c tcase, obs *vh.LineWriter, st *vh.Stats, nonCmd uint64) {
 	violated := false
 	// KNOWN FINDING (findings/known.txt, tanmux-removal-not-durable): in the
 	// multiplexed tan mode RemoveNodeData/ImportSnapshot are not durable for the
-	// removed replica. From the removal on that replica is "tainted": a wrong
-	// answer about it is reported once through the monitor under the known
-	// finding's name, and the reference answer is written to impl.obs so that the
-	// rest of the case (the other replicas sharing the db) is still compared.
-	tainted := map[int]bool{}
+	// removed replica. Only a wrong answer that is fully explained by the removed
+	// incarnation's data coming back after a reopen (ghost.explains) is reported,
+	// once, under the known finding's name; the reference answer is then written
+	// to impl.obs so that the rest of the case is still compared. Any other wrong
+	// answer about a removed replica is an ordinary violation.
+	ghosts := map[int]*ghost{}
+	ever := map[int][]ent{} // every entry ever saved per replica (the tan index keeps compacted ones too)
+	everSt := map[int][]hstate{}
+	everSs := map[int][]snap{}
 	taintReported := false
 	boundaryEnd := map[int]int{} // replica -> op index of a save that ended on the last slot of a batch
 	for k, o := range c.Ops {
@@ -49,6 +61,15 @@ func runCase(c tcase, obs *vh.LineWriter, st *vh.Stats, nonCmd uint64) {
 			continue
 		}
 		st.Count("op." + o.Kind)
+		if o.Kind == "GB" || o.Kind == "LNI" {
+			got, want := s.bootQuery(o), r.query(o)
+			obs.Printf("%s %d %s %s\n", c.ID, k, o.Kind, got)
+			if got != want && !violated {
+				violated = true
+				st.Violation(c.ID, fmt.Sprintf("store=%s op#%d %s: store answered {%s} but the bootstrap records saved say {%s}", c.Kind, k, o.String(), got, want))
+			}
+			continue
+		}
 		wf := r.wf(o)
 		if isQuery(o) {
 			absent := !wf && r.absentQuery(o)
@@ -59,7 +80,7 @@ func runCase(c tcase, obs *vh.LineWriter, st *vh.Stats, nonCmd uint64) {
 				_, got := s.query(o)
 				if got != "[] 0" {
 					msg := fmt.Sprintf("op#%d %s: store answered {%s} but nothing at or above index %d was saved for this replica since its data was removed", k, o.String(), got, o.A)
-					if tainted[o.N] {
+					if ghosts[o.N].explains(o, got, "[] 0", true, curEnts(&r.nodes[o.N])) {
 						st.Count("known.tanmux-tainted-answers")
 						if !taintReported {
 							taintReported = true
@@ -81,7 +102,7 @@ func runCase(c tcase, obs *vh.LineWriter, st *vh.Stats, nonCmd uint64) {
 			raw, canon := s.query(o)
 			if wf {
 				want := r.query(o)
-				if canon != want && tainted[o.N] {
+				if canon != want && ghosts[o.N].explains(o, canon, want, false, curEnts(&r.nodes[o.N])) {
 					st.Count("known.tanmux-tainted-answers")
 					if !taintReported {
 						taintReported = true
@@ -93,6 +114,30 @@ func runCase(c tcase, obs *vh.LineWriter, st *vh.Stats, nonCmd uint64) {
 				if canon != want && !violated {
 					violated = true
 					st.Violation(c.ID, fmt.Sprintf("store=%s op#%d %s: store answered {%s} but the logical log says {%s}", c.Kind, k, o.String(), canon, want))
+				}
+				if o.Kind == "Q" && ghosts[o.N] == nil && o.A < o.B && o.B <= r.nodes[o.N].last()+1 {
+					// the same range through the real LogReader (what the raft core calls):
+					// entries up to the size limit, the one exceeding it dropped, at least one
+					n := &r.nodes[o.N]
+					var exp []ent
+					size := uint64(0)
+					for i := o.A; i < o.B; i++ {
+						e := n.ents[i-n.marker-1]
+						size += nonCmd + e.Len
+						if size > o.C && len(exp) > 0 {
+							break
+						}
+						exp = append(exp, e)
+						if size > o.C {
+							break
+						}
+					}
+					st.Count("query.through-logreader")
+					got, _ := s.readerEntries(o.N, n.marker, maxu(n.mterm, 1), uint64(len(n.ents)), o.A, o.B, o.C)
+					if got != showEnts(exp) && !violated {
+						violated = true
+						st.Violation(c.ID, fmt.Sprintf("store=%s op#%d %s: LogReader.Entries on top of the store returned {%s} but the logical log says {%s}", c.Kind, k, o.String(), got, showEnts(exp)))
+					}
 				}
 				if o.Kind == "Q" && strings.Contains(canon, ":") {
 					n := &r.nodes[o.N]
@@ -156,10 +201,35 @@ func runCase(c tcase, obs *vh.LineWriter, st *vh.Stats, nonCmd uint64) {
 				st.Count("save.multi-update")
 			}
 		}
+		if c.Kind == "tanmux" && (o.Kind == "REMNODE" || o.Kind == "IMPORT") {
+			if ghosts[o.N] == nil {
+				ghosts[o.N] = newGhost()
+			}
+			ghosts[o.N].absorb(&r.nodes[o.N], ever[o.N], everSt[o.N], everSs[o.N])
+		}
+		switch o.Kind {
+		case "SAVE":
+			for _, u := range o.Ups {
+				ever[u.N] = append(ever[u.N], u.Ents...)
+				if !u.St.empty() {
+					everSt[u.N] = append(everSt[u.N], u.St)
+				}
+				if u.Ss.Index > 0 {
+					everSs[u.N] = append(everSs[u.N], u.Ss)
+				}
+			}
+		case "SNAP":
+			everSs[o.N] = append(everSs[o.N], o.Ss)
+		case "IMPORT":
+			everSs[o.N] = append(everSs[o.N], o.Ss)
+			everSt[o.N] = append(everSt[o.N], hstate{Term: o.Ss.Term, Commit: o.Ss.Index})
+		}
 		res, detail := s.exec(o)
 		r.apply(o)
-		if c.Kind == "tanmux" && (o.Kind == "REMNODE" || o.Kind == "IMPORT") {
-			tainted[o.N] = true
+		if o.Kind == "REOPEN" || o.Kind == "IMPORT" {
+			for _, g := range ghosts {
+				g.reopened = true
+			}
 		}
 		obs.Printf("%s %d %s %s\n", c.ID, k, o.Kind, res)
 		if res != "ok" && !violated {
